@@ -209,8 +209,8 @@ ADDENDA16 = {
  "C03": " Also (corpus U): a dereference guarded through a second variable (`if v != nil { u = v.f() }; if len(u) == 0 { return }; v.g()`) is discharged by the correlation of the two φs; the regexp contract D11 knows a submatch slice to be empty on a φ edge when its emptiness test lies on every path to that predecessor. Ledger entries of a reviewed function are inherited by a helper split out of it (unknown to the baseline, called only from it); the entries' machine-checked facts are evaluated where the construct now lives.",
  "C10": " Also (round 16): K7 accepts a receive buffer allocated once before the loop when the decoder keeps nothing of its input (E3), the slice handed to ReadFrom is the whole buffer (no narrowing φ) and the buffer is otherwise only decoded from, measured and copied from; K6 lets construction steps (unexported, never a value, called only from the constructor before the receive loop starts) write Client fields; K4 judges a (response, error) pair of φs edge by edge when the wait loop's results leave it through a join. Helpers with their own returns, loops or selects are merged into their callers before analysis (pre-pass, second strategy) and the must-pass queries run over feasible paths (cfgpath.go).",
  "C11": " Also (rounds 15-16): the try's deadline and the caller's context may share ONE case of the wait select, on a context derived with context.WithTimeout(ctx, timeout), when the case is decided by Err() of the caller's context (non-nil: that error; nil: the internal deadline error); a case that sets the results and leaves a merged loop is judged by the value it returns through the join (resultVia).",
- "C12": " Also (round 16): the retry driver may hand back the try's result as it is (`if err != errDeadlineExceeded { return err }` covers nil); the wait-select rules (a deadline case fed by the try's timeout, created once per try, never re-armed: C11-K1/K2) are evaluated under C12.",
- "C13": " Also: the flag contract accepts IsUnicast() = !IsBroadcast() when the sibling is the directly written test.",
+ "C12": " Also (round 17): the lock discipline C10-K5 (pendingMu released on every exit of every function that takes it) is evaluated under C12 — a leaked lock stops every later transmission. Also (round 16): the retry driver may hand back the try's result as it is (`if err != errDeadlineExceeded { return err }` covers nil); the wait-select rules (a deadline case fed by the try's timeout, created once per try, never re-armed: C11-K1/K2) are evaluated under C12.",
+ "C13": " Also (round 17): C10-K4 (SendAndRead hands back the packet received in its wait select, only under match == nil or match(packet)) and the wait-select rules C11-K1/K2 are evaluated under C13. Also: the flag contract accepts IsUnicast() = !IsBroadcast() when the sibling is the directly written test.",
  "C14": " Also (round 16): K4 accepts a hoisted read buffer under the conditions of C10-K7; the serve-loop rules (exits, every read reaches the decoder, no handler after a decode error, a handler after every success, handler arguments) run over feasible paths and resolve φs by the edges that can reach the use, so a read/decode step split into a helper returning (msg, peer, err) is judged like the inlined loop.",
  "C17": " Also: K1 reads the printer table from getOption or from an unexported function it calls for the decoder.",
  "C05": " Also (round 16): in the rejection census a counter that provably equals the joined length of the pieces collected so far (inductive invariant over the loop-header φs: (0, empty) | unchanged | (n + [len(parts)>0] + len(s), append(parts, s)); checker/accpair.go) is the length of the name under construction, so a 255-octet limit tested on it is the reviewed limit; a counter that is not reset with the list fails the invariant.",
